@@ -78,6 +78,7 @@ def outStr : Outcome → String
   | .ok => "1"
   | .full => "E:runtime"
   | .badAlloc => "E:throw"
+  | .invalid => "E:invalid_argument"
 
 def dumpTable (sp : Spec) (t : Table) : String :=
   " || ".intercalate (t.gens.map (fun g =>
